@@ -5,6 +5,7 @@ PROPS = {
     "C02": {
         "level": "exploration",
         "budget": {"quick": 40, "thorough": 600},
+        "asan": {"budget": 60},
         "min_evaluations": 20000,
         "min_counters": {"programs_uninspected": 2000, "programs_generated": 2000, "example_runs": 60, "witness_nodes_walked": 50000},
         "rule": ("(i) Uninspected-witness family: 10 program shapes (bound to an unused variable, to `_`, only re-tupled, "
